@@ -232,6 +232,9 @@ func (x *Exec) run(s *State) {
 				f.jump(f.block.Succs[1])
 				continue
 			}
+			if x.tryMerge(s, f, c) {
+				continue
+			}
 			t := s.clone()
 			t.assume(c)
 			t.top().jump(f.block.Succs[0])
@@ -734,6 +737,31 @@ func (x *Exec) checkPost(s *State, res []Val) {
 			x.emit(s, "inv", c.Label, props, n.evalBool(c.Expr), c)
 		}
 	}
+	for _, m := range x.spec.Establishes {
+		// "establishes x" or "establishes cond ==> x": every invariant clause of x holds at exit
+		guard := "true"
+		target := m.Text
+		if i := strings.Index(m.Text, "==>"); i >= 0 {
+			guard = env.evalBool(mustParse(strings.TrimSpace(m.Text[:i])))
+			target = strings.TrimSpace(m.Text[i+3:])
+		}
+		v := env.eval(mustParse(target))
+		ts := x.typeSpecOf(v.Typ)
+		if ts == nil {
+			specFail("establishes %s: no type spec", m.Text)
+		}
+		n := env.sub(map[string]Val{"this": v})
+		for _, c := range ts.Invs {
+			if x.prop != "" && !(hasProp(m.Props, x.prop) && (len(c.Props) == 0 || hasProp(c.Props, x.prop))) {
+				continue
+			}
+			props := m.Props
+			if x.prop != "" {
+				props = []string{x.prop}
+			}
+			x.emit(s, "inv", c.Label, props, sImp(guard, n.evalBool(c.Expr)), c)
+		}
+	}
 	if x.spec.HasAssigns && (x.prop == "" || true) {
 		x.checkFrame(s, env)
 	}
@@ -945,4 +973,133 @@ func mentions(e *SExpr, id string) bool {
 		}
 	}
 	return false
+}
+
+// speculable reports whether a block only computes values / allocates fresh objects, so that it
+// can be executed unconditionally and its results merged with ite at the join (if-conversion of
+// "if x == nil { x = default }" style triangles; keeps constructors from exploding into 2^n paths).
+func speculable(b *ssa.BasicBlock) bool {
+	if len(b.Succs) != 1 || len(b.Preds) != 1 {
+		return false
+	}
+	fresh := map[ssa.Value]bool{}
+	for _, in := range b.Instrs {
+		switch in := in.(type) {
+		case *ssa.Jump, *ssa.DebugRef, *ssa.MakeClosure, *ssa.MakeInterface, *ssa.ChangeType, *ssa.ChangeInterface:
+		case *ssa.Alloc:
+			fresh[in] = true
+		case *ssa.Store:
+			// only initialisation of objects allocated in this block
+			root := in.Addr
+			for {
+				if fa, ok := root.(*ssa.FieldAddr); ok {
+					root = fa.X
+					continue
+				}
+				break
+			}
+			if !fresh[root] {
+				return false
+			}
+		case *ssa.FieldAddr:
+			if !fresh[in.X] {
+				return false
+			}
+		case *ssa.Convert:
+			if isFloat(in.X.Type()) && isInteger(in.Type()) {
+				return false
+			}
+		case *ssa.BinOp:
+			if in.Op == token.QUO || in.Op == token.REM {
+				return false
+			}
+		case *ssa.UnOp:
+			if in.Op == token.MUL {
+				if _, ok := in.X.(*ssa.Global); !ok {
+					return false
+				}
+			} else if in.Op == token.ARROW {
+				return false
+			}
+		case *ssa.Phi:
+			return false
+		default:
+			return false
+		}
+	}
+	return true
+}
+
+// tryMerge handles `if c { T } ; J` (triangle) where T is speculable: no path fork.
+func (x *Exec) tryMerge(s *State, f *Frame, c string) bool {
+	b := f.block
+	t, e := b.Succs[0], b.Succs[1]
+	var spec, join *ssa.BasicBlock
+	cond := c
+	switch {
+	case speculable(t) && t.Succs[0] == e:
+		spec, join = t, e
+	case speculable(e) && e.Succs[0] == t:
+		spec, join = e, t
+		cond = sNot(c)
+	default:
+		return false
+	}
+	if _, isLoop := x.loops[join]; isLoop {
+		return false
+	}
+	// execute the speculative block
+	for _, in := range spec.Instrs {
+		if _, ok := in.(*ssa.Jump); ok {
+			break
+		}
+		x.execInstr(s, in)
+	}
+	// merge phis of the join block
+	var phis []*ssa.Phi
+	var vals []Val
+	for _, in := range join.Instrs {
+		phi, ok := in.(*ssa.Phi)
+		if !ok {
+			break
+		}
+		var vs, vb Val
+		okS, okB := false, false
+		for i, p := range join.Preds {
+			if p == spec {
+				vs, okS = x.val(s, phi.Edges[i]), true
+			} else if p == b {
+				vb, okB = x.val(s, phi.Edges[i]), true
+			}
+		}
+		if !okS || !okB || vs.Loc != nil || vb.Loc != nil || vs.Iter != nil || vb.Iter != nil || len(vs.L) != len(vb.L) {
+			unsupported("cannot merge phi %s", phi.Name())
+		}
+		m := Val{Typ: phi.Type(), L: make([]string, len(vs.L))}
+		for i := range vs.L {
+			a, oka := (fctx{s}).finInner(vs.L[i])
+			bb, okb := (fctx{s}).finInner(vb.L[i])
+			if oka && okb && strings.HasPrefix(vs.L[i], "(fin ") {
+				m.L[i] = "(fin " + sIte(cond, a, bb) + ")"
+			} else {
+				m.L[i] = sIte(cond, vs.L[i], vb.L[i])
+			}
+		}
+		phis = append(phis, phi)
+		vals = append(vals, m)
+	}
+	// other predecessors of join must not exist besides b and spec for this shortcut
+	for _, p := range join.Preds {
+		if p != b && p != spec {
+			// join has further predecessors: they will evaluate the phis normally on their own paths
+		}
+	}
+	f.prev = b
+	f.block = join
+	f.entered = true
+	for i, phi := range phis {
+		f.regs[phi] = vals[i]
+	}
+	f.idx = len(phis)
+	return true
 }
